@@ -23,7 +23,12 @@
    the cache), non-disruptive actions of SecRule links, MATCHED_VARS(_NAMES), captures, ctl
    target removal (tx.ruleRemoveTargetByID is empty), skip/skipAfter/allow/removals/interruptions
    (C02/C08/C17), multiphase evaluation and the case-sensitive-args build tag (both off by
-   default).  Keys are ASCII: strings.ToLower is modelled by lower_ascii. *)
+   default).  strings.ToLower is modelled by lower_ascii: exact for ASCII names.  For names with
+   other bytes (invalid UTF-8, letters whose lower-case form has another length) Go groups the
+   entries under another map key, which no GROUPING-INVARIANT observable sees: the FindAll
+   multisets of keyless targets, the '&' counts, ARGS_COMBINED_SIZE (sum of |original name| + |value|
+   over ARGS_GET and ARGS_POST: size_of_request in MatchProofs.v) - only these are claimed and
+   compared for such names; string / regex keys and exclusions are claimed for ASCII names. *)
 From Coq Require Import String.
 From Coq Require Import Permutation.
 From Verif Require Import Base Utf8 Transform.
@@ -36,7 +41,7 @@ Inductive var :=
   | VUnknown | VArgs | VArgsGet | VArgsPost | VArgsNames | VArgsGetNames | VArgsPostNames
   | VReqHeaders | VReqHeadersNames | VReqCookies | VReqCookiesNames | VTx
   | VReqUri | VReqMethod | VQueryString | VMatchedVar | VArgsCombinedSize
-  | VMatchedVarName | VMatchedVars | VMatchedVarsNames.
+  | VMatchedVarName | VMatchedVars | VMatchedVarsNames | VFilesCombinedSize.
 
 Definition var_code (v : var) : N :=
   match v with
@@ -44,7 +49,7 @@ Definition var_code (v : var) : N :=
   | VArgsGetNames => 5 | VArgsPostNames => 6 | VReqHeaders => 7 | VReqHeadersNames => 8
   | VReqCookies => 9 | VReqCookiesNames => 10 | VTx => 11 | VReqUri => 12 | VReqMethod => 13
   | VQueryString => 14 | VMatchedVar => 15 | VArgsCombinedSize => 16
-  | VMatchedVarName => 17 | VMatchedVars => 18 | VMatchedVarsNames => 19
+  | VMatchedVarName => 17 | VMatchedVars => 18 | VMatchedVarsNames => 19 | VFilesCombinedSize => 20
   end.
 Definition var_eqb (a b : var) : bool := var_code a =? var_code b.
 
@@ -60,6 +65,7 @@ Definition var_name (v : var) : bytes :=
   | VQueryString => str "QUERY_STRING"%string | VMatchedVar => str "MATCHED_VAR"%string
   | VArgsCombinedSize => str "ARGS_COMBINED_SIZE"%string | VMatchedVarName => str "MATCHED_VAR_NAME"%string
   | VMatchedVars => str "MATCHED_VARS"%string | VMatchedVarsNames => str "MATCHED_VARS_NAMES"%string
+  | VFilesCombinedSize => str "FILES_COMBINED_SIZE"%string
   end.
 (* the variables tx.matchVariable writes *)
 Definition matched_family (v : var) : bool :=
@@ -189,6 +195,7 @@ Inductive shape :=
   | ShKeyed (parts : list (bool * mapid))
   | ShSingle (f : sid)
   | ShSized (ms : list mapid)
+  | ShConst (v : bytes)
   | ShNoop.
 
 Definition var_shape (v : var) : shape :=
@@ -213,6 +220,8 @@ Definition var_shape (v : var) : shape :=
   | VMatchedVarName => ShSingle SMvarName
   | VMatchedVars => ShKeyed [(false, MMvars)]
   | VMatchedVarsNames => ShKeyed [(true, MMvars)]
+  (* a Single that NewTransaction sets to "0"; only a multipart body changes it (not modelled) *)
+  | VFilesCombinedSize => ShConst [48]
   end.
 
 (* the Go objects: a keyed collection is a list of leaves (a plain Map / NamedCollection is the
@@ -225,6 +234,7 @@ Definition collection (st : state) (v : var) : coll :=
   | ShKeyed parts => CKeyed (map (fun p : bool * mapid => if fst p then LNames (get_map st (snd p)) else LMap (get_map st (snd p))) parts)
   | ShSingle f => CSingle (get_single st f)
   | ShSized ms => CSized (map (get_map st) ms)
+  | ShConst v => CSingle v
   | ShNoop => CNoop
   end.
 
@@ -591,6 +601,7 @@ Definition spec_entries (st : state) (v : var) : list entry :=
   | ShKeyed parts => flat_map (fun p : bool * mapid => view (fst p) (flat_entries (get_map st (snd p)))) parts
   | ShSingle f => [([], get_single st f)]
   | ShSized ms => [([], itoa (maps_size (map (get_map st) ms)))]
+  | ShConst v => [([], v)]
   | ShNoop => []
   end.
 Definition selectable (v : var) : bool := match var_shape v with ShKeyed _ => true | _ => false end.
